@@ -134,6 +134,8 @@ pub struct SimReader<'a> {
     fault: Option<ReadFault>,
     budget: u64,
     record_boundaries: bool,
+    /// every Interrupted answer takes this long in real time (a slow device; 0 = immediate)
+    pub eintr_sleep_ms: u64,
     pub st: ReadStats,
 }
 
@@ -154,6 +156,7 @@ impl<'a> SimReader<'a> {
             fault,
             budget,
             record_boundaries: false,
+            eintr_sleep_ms: 0,
             st: ReadStats::default(),
         }
     }
@@ -200,6 +203,9 @@ impl<'a> SimReader<'a> {
             self.ei += 1;
             self.st.eintr_fired += 1;
             self.st.polls_after_last_eintr = 0;
+            if self.eintr_sleep_ms > 0 {
+                std::thread::sleep(std::time::Duration::from_millis(self.eintr_sleep_ms));
+            }
             return Err(io::Error::from(ErrorKind::Interrupted));
         }
         if let Some(f) = self.fault {
